@@ -391,7 +391,8 @@ def typed_dict_signature(obj: tp.Callable) -> inspect.Signature:
         Technically, these are dicts at runtime, but we are enforcing a static shape,
         so we should be able to declare a matching signature for it.
     """
-    hints = cached_type_hints(obj)
+    # Don't fall back to the signature for hints - that's us.
+    hints = get_type_hints(obj, exhaustive=False)
     total = getattr(obj, "__total__", True)
     default = inspect.Parameter.empty if total else ...
     return inspect.Signature(
